@@ -14,26 +14,57 @@ import (
 // Values, operations, scenarios
 // ---------------------------------------------------------------------------
 
-// c05Values are the checkpoint bodies of the property's value domain:
-// empty, "a", a value with an embedded NUL, 4 KiB.
+// c05Values are the checkpoint bodies of the property's value domain. The
+// first c05HotValues of them (empty, "a", a value with an embedded NUL, 4 KiB)
+// take part in the full interleaving enumeration; the large ones (around the
+// 64 KiB boundary, 300 KB, 1 MiB) are used by the dedicated read-your-writes
+// programs of c05BigValueScenarios only.
+const c05HotValues = 4
+
+var c05ValueNames = []string{"empty", "a", "aNULb", "4KiB", "65535B", "65536B", "65537B", "300KB", "1MiB"}
+
 var c05Values = func() [][]byte {
-	big := make([]byte, 4096)
-	for i := range big {
-		big[i] = byte(i*7 + i/251) // includes NULs and every byte value
+	mk := func(n int, salt byte) []byte {
+		b := make([]byte, n)
+		for i := range b {
+			b[i] = byte(i*7+i/251) + salt*byte(i>>12) // includes NULs and every byte value; content keeps changing
+		}
+		return b
 	}
-	return [][]byte{{}, []byte("a"), []byte("a\x00b"), big}
+	return [][]byte{{}, []byte("a"), []byte("a\x00b"), mk(4096, 0),
+		mk(65535, 1), mk(65536, 2), mk(65537, 3), mk(300_000, 4), mk(1<<20, 5)}
 }()
 
 func c05ValName(v []byte) string {
 	for i, w := range c05Values {
 		if bytes.Equal(v, w) {
-			return [...]string{"empty", "a", "aNULb", "4KiB"}[i]
+			return c05ValueNames[i]
+		}
+	}
+	for i, w := range c05Values {
+		if len(v) > 0 && len(v) < len(w) && bytes.Equal(v, w[:len(v)]) && len(w) > 4096 {
+			return fmt.Sprintf("?first-%d-bytes-of-%s", len(v), c05ValueNames[i])
 		}
 	}
 	if len(v) > 12 {
 		return fmt.Sprintf("?%x..(%d)", v[:6], len(v))
 	}
 	return fmt.Sprintf("?%q", v)
+}
+
+// c05BigValueScenarios are the read-your-writes programs for one large value v
+// (index into c05Values): a single client creating and re-reading it, a single
+// client replacing a small value by it, re-reading it (the harness adds a read
+// through a freshly opened backend object at the end of every execution) and
+// replacing it again from the fetched handle, and two clients of which one
+// installs the large value and the other fetches and replaces it.
+func c05BigValueScenarios(backend, mode string, v int) []c05Scenario {
+	F := c05Op{K: "F"}
+	return []c05Scenario{
+		{Backend: backend, Mode: mode, Init: -1, Progs: [][]c05Op{{{K: "C", V: v}, F}}},
+		{Backend: backend, Mode: mode, Init: -1, Progs: [][]c05Op{{{K: "C", V: 1}, F, {K: "R", V: v}, F, {K: "R", V: 2}, F}}},
+		{Backend: backend, Mode: mode, Init: 1, Progs: [][]c05Op{{{K: "R", V: v}, F}, {F, {K: "R", V: 2}}}},
+	}
 }
 
 // c05Op is one step of a client program. K is "F" (Fetch), "R" (Replace with
@@ -177,7 +208,7 @@ func c05Programs(maxLen int, present bool) [][]string {
 //	       the register value recurs (X -> Y -> X)
 func c05Scenarios(backend, mode string, k, maxLen int, offs []int, assign string) []c05Scenario {
 	var out []c05Scenario
-	nv := len(c05Values)
+	nv := c05HotValues
 	for _, present := range []bool{false, true} {
 		progs := c05Programs(maxLen, present)
 		idx := make([]int, k)
@@ -542,6 +573,18 @@ func c05DirectRules(h []c05Rec, distinct bool) []string {
 			case f.Res == "ok" && distinct && w.Kind == "R" && string(f.Val) == string(w.Old):
 				bad = append(bad, fmt.Sprintf("stale read: Fetch started after a successful Replace returned still sees the replaced value (%s then %s)", w, f))
 			}
+		}
+	}
+	// A Fetch returns a value that was written (completely, unmodified).
+	written := map[string]bool{}
+	for _, w := range h {
+		if w.Kind == "R" || w.Kind == "C" {
+			written[string(w.New)] = true
+		}
+	}
+	for _, f := range h {
+		if f.Kind == "F" && f.Res == "ok" && !written[string(f.Val)] {
+			bad = append(bad, fmt.Sprintf("Fetch returned %s (%d bytes), a value no operation wrote (%s)", c05ValName(f.Val), len(f.Val), f))
 		}
 	}
 	// Returned checkpoints carry the written value.
